@@ -8,6 +8,10 @@ def run(ctx):
     n = wc.replay(ctx, cases, ["c02:"])
     rows, bases, _ = shapes.replay(ctx)
     nt = shapes.judge_c02(ctx, rows)
+    # staying inside an element: content a decoder may ignore or refuse (children / text inside a value element, unknown attributes or
+    # members) never turns into items of the enclosing structures; the same restructured tree means the same in XML and JSON
+    shapes.judge_c04_lenient(ctx, rows, bases)
+    shapes.judge_c04_cross(ctx, rows)
     ctx.finish("model_checking", {
         "evaluations": n + 3 * nt,
         "text_shape_cases": nt,
